@@ -202,6 +202,7 @@ def c05_rules():
         lambda prog, tier: inval.run_pricedim(prog, shared_eff(prog)),
         lambda prog, tier: inval.run_failpath(prog, shared_eff(prog)),
         lambda prog, tier: inval.run_normstale(prog, shared_eff(prog)),
+        lambda prog, tier: inval.run_rstatsense(prog, shared_eff(prog)),
         lambda prog, tier: norms.run_handover(prog),
         lambda prog, tier: vtypezero.run(prog),
         lambda prog, tier: escape.run_extcopy(prog),
@@ -685,7 +686,8 @@ _ADD = {
                            "a public caller of a batch routine that can fail half-way drops the cached solution on the failing paths too (a batch rejected as a "
                            "whole - count unchanged - leaves it alone); (R-NORMSTALE) a public function that changes entries of the matrix without changing "
                            "a dimension releases both edge-norm arrays kept with p->basis on every success path; (R-FOREIGNNORMS) a basis record that moves "
-                           "from one problem object to another (the scaled pre-solve copy) leaves its edge norms behind."},
+                           "from one problem object to another (the scaled pre-solve copy) leaves its edge norms behind; (R-RSTATSENSE) a public function that may "
+                           "store a row sense deals with the row statuses of p->basis (UPPER is a status of ranged rows only)."},
     "C07": {"technique": "; computed simplex-state fields of lpinfo + unguarded-read summaries + dominance of the API hand-over by the factorok test; "
                          "alphabet discovery + dominating-validator check for caller-supplied selector letters",
             "explanation": " (R-LPSTATE) the index-taking calls that work on the simplex data of the problem (tableau rows, pivot-in lists, basis "
